@@ -361,3 +361,41 @@ def idx_bounds_absolute_tol(prog: Program) -> List[Instance]:
     return [Instance("R-GUARDSEQ", f"{f.qual}#absolute-tolerance", OK if ok else BAD,
                      "the query box is shrunk by an absolute constant before indexing" if ok else
                      f"the shrink `{short(bad[0])}` is scaled by a run-time quantity: the excluded edge contact grows with the tile size instead of staying at 1e-8 CRS units", f.where())]
+
+
+def constructor_only_state(prog: Program) -> List[Instance]:
+    """C04: the tilings establish their invariants in `__init__` (VariableSizedTiles re-bases its cumulative
+    offsets to start at 0; Tiles derives its tile-count shape). An instance assembled around the constructor -
+    `Cls.__new__(Cls)` followed by attribute stores, or a slot written from another method or from outside -
+    skips that: a cropped variable tiling built from sliced offsets keeps the parent's offsets."""
+    out: List[Instance] = []
+    for cq in ("roi:VariableSizedTiles", "roi:Tiles"):
+        ci = prog.classes.get(cq)
+        if ci is None:
+            continue
+        slots: Set[str] = set()
+        for st in ci.node.body:
+            if isinstance(st, ast.Assign) and any(isinstance(t, ast.Name) and t.id == "__slots__" for t in st.targets):
+                slots = {e.value for e in ast.walk(st.value) if isinstance(e, ast.Constant) and isinstance(e.value, str)}
+        bad: List[str] = []
+        for fi in prog.all_functions({"roi", "geobox", "_blocks"}):
+            for n in walk_own(fi.node):
+                # Cls.__new__(Cls)
+                if isinstance(n, ast.Call) and isinstance(n.func, ast.Attribute) and n.func.attr == "__new__" and short(n.func.value).split(".")[-1] == ci.name:
+                    bad.append(f"{fi.qual}: `{short(n)}` bypasses {ci.name}.__init__")
+                # stores to the slots outside __init__
+                tg = n.targets if isinstance(n, ast.Assign) else [n.target] if isinstance(n, (ast.AugAssign, ast.AnnAssign)) else []
+                for t in tg:
+                    for x in ast.walk(t):
+                        if isinstance(x, ast.Attribute) and x.attr in slots and isinstance(x.ctx, ast.Store):
+                            inside_init = fi.cls is ci and fi.name == "__init__"
+                            typed = fi.cls is ci and isinstance(x.value, ast.Name) and x.value.id == fi.self_name
+                            if not inside_init and (typed or fi.cls is not ci):
+                                # a foreign store only counts when the receiver can be this class
+                                if fi.cls is ci or ci in prog.receiver_classes(x.value, fi) or not prog.receiver_classes(x.value, fi):
+                                    if fi.cls is ci or any(isinstance(c, ast.Call) and short(c.func).split(".")[-1] in (ci.name, "__new__") for c in ast.walk(fi.node)):
+                                        bad.append(f"{fi.qual}: `{short(n, 40)}` writes {x.attr} outside {ci.name}.__init__")
+        out.append(Instance("R-IMMUT", f"{ci.qual}#constructor-only", OK if not bad else BAD,
+                            f"{ci.name} state {sorted(slots)} is established by __init__ only" if not bad else
+                            f"{bad[0]}: the invariants __init__ establishes (offsets re-based to 0, derived shapes) do not hold for that instance", f"{ci.mod.relpath}:{ci.node.lineno}"))
+    return out
